@@ -51,6 +51,8 @@ def run(ctx):
     ctx.validate(s.trace, label='globs')
     if not srv.alive():
         srv.restart()
+    # integer positions written in spellings the reference refuses ('+5', '007', '-0'): open finding lenient_int
+    workloads.lenient_int_history(ctx, srv, 'strings')
     ctx.extra_cov['form_segments'] = nf
     ctx.extra_cov['glob_pairs'] = len(pats) * len(names)
     ctx.extra_cov['distinct_cases'] = len(paths) + n_hist + nf + len(pats)
